@@ -5,3 +5,4 @@ import Liftbridge.Model.Log
 import Liftbridge.Model.Retention
 import Liftbridge.Model.Compact
 import Liftbridge.Model.Subscribe
+import Liftbridge.Model.TelemetryCfg
